@@ -17,7 +17,7 @@ from vx.units.rbranch import add_branch_helpers
 from vx.units.rscan import SPEC as SCAN_SPEC
 
 PROPS = ['C01']
-RLIMIT = 400
+RLIMIT = 100
 MULTIPLE_ERRORS = 2   # a failing 200-arm query is expensive: do not ask the solver for many more counterexamples
 R = 'duke/src/class_reader.rs'
 CC = 'duke/src/class_constants.rs'
@@ -201,6 +201,57 @@ def second_pass_closure(u):
     return dict(body=text, line=s.line_of(f['open'] + m.start()))
 
 
+def split_arms(text):
+    """arms of the single top-level `match` that forms `text` = `Ok(match r.read_u8()? { .. })`: [(pattern, body)], plus the offsets for rebuilding"""
+    mask = code_mask(text)
+    m = re.search(r'match\s+r\.read_u8\(\)\?\s*\{', mask)
+    ob = m.end() - 1
+    cb = match_close(mask, ob)
+    arms = []
+    i = ob + 1
+    while True:
+        a = mask.find('=>', i, cb)
+        if a < 0:
+            break
+        pat = (i, a)
+        j = a + 2
+        while mask[j] in ' \t\n':
+            j += 1
+        if mask[j] == '{':
+            e = match_close(mask, j)
+            bs, be, k = j, e + 1, e + 1
+            while k < cb and mask[k] in ' \t':
+                k += 1
+            if k < cb and mask[k] == ',':
+                k += 1
+        else:
+            k = j
+            while k < cb:
+                if mask[k] in '([{':
+                    k = match_close(mask, k)
+                elif mask[k] == ',':
+                    break
+                k += 1
+            bs, be = j, k
+            k += 1
+        arms.append(dict(pat=pat, body=(bs, be), end=k))
+        i = k
+    return m.start(), ob, cb, arms
+
+
+def pattern_cond(pat, x):
+    """boolean spec expression for `x matches pat` (constants, `|` alternatives, inclusive ranges)"""
+    alts = []
+    for alt in pat.split('|'):
+        alt = alt.strip()
+        if '..=' in alt:
+            lo, hi = [s.strip() for s in alt.split('..=')]
+            alts.append(f'({lo} <= {x} && {x} <= {hi})')
+        else:
+            alts.append(f'{x} == {alt}')
+    return '(' + ' || '.join(alts) + ')'
+
+
 def build(u):
     u.preamble('common.rs')
     u.preamble('bytes.rs')
@@ -220,30 +271,81 @@ def build(u):
          ensures=[C('C01.atype.table', 'res matches Ok(t) ==> jvms_atype(atype as int) == Some(t)'),
                   C('C01.atype.ok-iff-in-table', 'res.is_ok() <==> jvms_atype(atype as int) is Some')])
     clo = second_pass_closure(u)
-    d0, p0 = 'old(r).data()', 'old(r).pos()'
-    q = f'sw_base({p0})'
-    ghost = f'0 <= {p0} && {d0}.len() <= 65535 && opcode_pos as int == {p0} && code_length as int == {d0}.len() && labels_wf(*labels) && r.data() == {d0}'
-    bv = '    proof { assert(shifted & 0b11 == shifted % 4 && shifted >> 2 == shifted / 4) by (bit_vector); }'
+    text = clo['body']          # `{ Ok(match r.read_u8()? { arms }) }`
+    mstart, ob, cb, arms = split_arms(text)
+    line0 = clo['line']
+    d0 = 'old(r).data()'
+    P = '(opcode_pos as int)'
+    q = f'sw_base({P})'
+    ARGS = 'r, labels, pool, bootstrap_methods, opcode_pos, code_length'
+    SIG = 'r: &mut Rd, labels: &Labels, pool: &PoolRead, bootstrap_methods: &Option<Vec<BootstrapMethodRead>>, opcode_pos: u16, code_length: u16'
+    ghost = f'0 <= {P} && {d0}.len() <= 65535 && code_length as int == {d0}.len() && labels_wf(*labels) && r.data() == {d0}'
+    opt = [(r'align_to_4_byte_boundary\(&mut r\)', 'align_to_4_byte_boundary(r)'),
+           (r'for _ in 0\.\.n\b', 'for _i in iter: 0..n'),
+           (r'let index = shifted & 0b11;', 'proof { assert(shifted & 0b11 == shifted % 4 && shifted >> 2 == shifted / 4) by (bit_vector); } let index = shifted & 0b11;'),
+           (r'let mut pairs = Vec::with_capacity', 'let mut pairs: Vec<(i32, Label)> = Vec::with_capacity'),
+           (r'let mut table = Vec::with_capacity', 'let mut table: Vec<Label> = Vec::with_capacity')]
+    loops_for = {
+        'TABLESWITCH': {0: dict(invariant=[
+            C('C01.decode.tableswitch.inv.pos', f'r.pos() == {q} + 12 + 4 * iter.index@ && table@.len() == iter.index@'),
+            C('C01.decode.tableswitch.inv.frame', ghost),
+            C('C01.decode.tableswitch.inv.entries', f'forall|j: int| 0 <= j < iter.index@ ==> has_label(*labels, #[trigger] sw_target({d0}, {P}, 12, 4, j)) && table@[j] == labels.labels@[sw_target({d0}, {P}, 12, 4, j) as u16]'),
+        ])},
+        'LOOKUPSWITCH': {0: dict(invariant=[
+            C('C01.decode.lookupswitch.inv.pos', f'r.pos() == {q} + 8 + 8 * iter.index@ && pairs@.len() == iter.index@'),
+            C('C01.decode.lookupswitch.inv.frame', ghost),
+            C('C01.decode.lookupswitch.inv.entries', f'forall|j: int| 0 <= j < iter.index@ ==> has_label(*labels, #[trigger] sw_target({d0}, {P}, 8, 8, j)) && pairs@[j].1 == labels.labels@[sw_target({d0}, {P}, 8, 8, j) as u16] '
+                                                     f'&& pairs@[j].0 as int == sval32({d0}.subrange({q} + 8 + 8 * j, {q} + 12 + 8 * j))'),
+        ])},
+    }
+    # ---- every arm `PATTERN => EXPR` becomes fn decode_arm_<name>(.., opcode) -> Result<Instruction> { Ok(EXPR) }; the match calls it
+    disp = text
+    lifted = 0
+    names = set()
+    for arm in reversed(arms):
+        pat_txt = text[arm['pat'][0]:arm['pat'][1]].strip().lstrip(',').strip()
+        bind = None
+        mb = re.match(r'^([a-z_][a-z0-9_]*)\s*@\s*(.*)$', pat_txt, re.S)
+        if mb:
+            bind, pat_core = mb.group(1), mb.group(2).strip()
+        else:
+            pat_core = pat_txt
+        if re.match(r'^[a-z_][a-z0-9_]*$', pat_core):
+            continue            # catch-all arm binding the opcode (`opcode => bail!(..)`): stays in the dispatcher
+        body_txt = text[arm['body'][0]:arm['body'][1]]
+        if re.fullmatch(r'\s*bail!\s*\(.*\)\s*', body_txt, re.S):
+            continue            # reserved opcodes rejected in place
+        name = re.sub(r'[^A-Za-z0-9]+', '_', pat_core.replace('opcode::', '')).strip('_')
+        if name in names:
+            raise CutError(f'read_code: two arms of the decoding match are both named {name}')
+        names.add(name)
+        key = name.split('_')[0] if name in ('TABLESWITCH', 'LOOKUPSWITCH') else name
+        line = line0 + text.count('\n', 0, arm['body'][0])
+        cond = pattern_cond(pat_core, 'opcode')
+        u.fn(R, f'read_code::decode_arm_{name}', ret='res',
+             synth=dict(sig=f'pub fn decode_arm_{name}<Rd: CodeReadHelper>({SIG}, {bind or "opcode"}: u8) -> Result<Instruction>', body='{ Ok(' + body_txt + ') }', line=line),
+             sig_rewrites=[] if not bind or bind == 'opcode' else [],
+             requires=[f'old(r).pos() == {P} + 1', f'{P} < {d0}.len()', f'{d0}.len() <= 65535', f'code_length as int == {d0}.len()', 'labels_wf(*labels)',
+                       f'{bind or "opcode"} == {d0}[{P}]', cond.replace('opcode ==', f'{bind or "opcode"} ==').replace('<= opcode &&', f'<= {bind or "opcode"} &&').replace('&& opcode <=', f'&& {bind or "opcode"} <=')],
+             opt_rewrites=opt, loops=loops_for.get(name, None),
+             ensures=[C(f'C01.decode.{name}.instruction-per-jvms', f'res matches Ok(i) ==> decodes({d0}, {P}, i, *labels, *pool, *bootstrap_methods)'),
+                      C(f'C01.decode.{name}.advances-by-the-instruction-length', f'res.is_ok() ==> final(r).pos() == {P} + insn_len({d0}, {P})'),
+                      C(f'C01.decode.{name}.frame', f'final(r).data() == {d0}')])
+        call = f'decode_arm_{name}({ARGS}, opcode_byte)?'
+        nl = '\n' * text[arm['pat'][0]:arm['body'][1]].count('\n')
+        lead = re.match(r'^[\s,]*', text[arm['pat'][0]:arm['pat'][1]]).group(0)
+        disp = disp[:arm['pat'][0]] + lead + pat_core + ' => ' + call + nl + disp[arm['body'][1]:]
+        lifted += 1
+    if lifted < 150:
+        raise CutError(f'read_code: only {lifted} arms of the decoding match could be lifted')
+    disp = re.sub(r'match\s+r\.read_u8\(\)\?\s*\{', 'match opcode_byte {', disp, count=1)
+    disp = '{ let opcode_byte = r.read_u8()?; ' + disp[1:]
+    u.drop(f'decoding match of read_code: {lifted} arms lifted to functions decode_arm_<OPCODE>(r, labels, pool, bootstrap_methods, opcode_pos, code_length, opcode) {{ Ok(<arm expression>) }}; '
+           'the match (scrutinee bound to opcode_byte first) calls them and is verified against the whole-instruction contract')
+    p0 = 'old(r).pos()'
     u.fn(R, 'read_code::decode_instruction', ret='res', canary=True,
-         synth=dict(sig='pub fn decode_instruction<Rd: CodeReadHelper>(r: &mut Rd, labels: &Labels, pool: &PoolRead, bootstrap_methods: &Option<Vec<BootstrapMethodRead>>, '
-                        'opcode_pos: u16, code_length: u16) -> Result<Instruction>', body=clo['body'], line=clo['line']),
+         synth=dict(sig=f'pub fn decode_instruction<Rd: CodeReadHelper>({SIG}) -> Result<Instruction>', body=disp, line=clo['line']),
          requires=[f'0 <= {p0}', f'{d0}.len() <= 65535', f'opcode_pos as int == {p0}', f'code_length as int == {d0}.len()', 'labels_wf(*labels)'],
-         rewrites=[(r'align_to_4_byte_boundary\(&mut r\)', 'align_to_4_byte_boundary(r)'),
-                   (r'for _ in 0\.\.n\b', 'for _i in iter: 0..n'),
-                   (r'let index = shifted & 0b11;', 'proof { assert(shifted & 0b11 == shifted % 4 && shifted >> 2 == shifted / 4) by (bit_vector); } let index = shifted & 0b11;'),
-                   (r'let mut pairs = Vec::with_capacity', 'let mut pairs: Vec<(i32, Label)> = Vec::with_capacity'),
-                   (r'let mut table = Vec::with_capacity', 'let mut table: Vec<Label> = Vec::with_capacity')],
-         loops={0: dict(invariant=[
-                    C('C01.decode.tableswitch.inv.pos', f'r.pos() == {q} + 12 + 4 * iter.index@ && table@.len() == iter.index@'),
-                    C('C01.decode.tableswitch.inv.frame', ghost),
-                    C('C01.decode.tableswitch.inv.entries', f'forall|j: int| 0 <= j < iter.index@ ==> has_label(*labels, #[trigger] sw_target({d0}, {p0}, 12, 4, j)) && table@[j] == labels.labels@[sw_target({d0}, {p0}, 12, 4, j) as u16]'),
-                ]),
-                1: dict(invariant=[
-                    C('C01.decode.lookupswitch.inv.pos', f'r.pos() == {q} + 8 + 8 * iter.index@ && pairs@.len() == iter.index@'),
-                    C('C01.decode.lookupswitch.inv.frame', ghost),
-                    C('C01.decode.lookupswitch.inv.entries', f'forall|j: int| 0 <= j < iter.index@ ==> has_label(*labels, #[trigger] sw_target({d0}, {p0}, 8, 8, j)) && pairs@[j].1 == labels.labels@[sw_target({d0}, {p0}, 8, 8, j) as u16] '
-                                                            f'&& pairs@[j].0 as int == sval32({d0}.subrange({q} + 8 + 8 * j, {q} + 12 + 8 * j))'),
-                ])},
          ensures=[
              C('C01.decode.instruction-per-jvms', f'res matches Ok(i) ==> decodes({d0}, {p0}, i, *labels, *pool, *bootstrap_methods)'),
              C('C01.decode.advances-by-the-instruction-length', f'res.is_ok() ==> final(r).pos() == {p0} + insn_len({d0}, {p0})'),
